@@ -79,7 +79,7 @@ WEIGHTS = {'store': 24, 'expunge': 14, 'uidexpunge': 6, 'move': 10, 'copy': 4, '
 
 
 def section_random(ctx, clauses) -> None:
-    n = ctx.scale(120, 600)
+    n = ctx.scale(120, 450)
     traces = []
     hist: dict = {}
     checkpoints = compared = 0
